@@ -132,6 +132,33 @@ impl Rewriter {
         *c += 1;
         Ident::new(&format!("__vx_{}{}", base, *c), proc_macro2::Span::call_site())
     }
+    fn unchain_hoist(&mut self, slot: &mut Expr, pre: &mut Vec<Stmt>) {
+        if matches!(*slot, Expr::MethodCall(_) | Expr::Call(_)) {
+            let t = self.fresh("c");
+            let recv = slot.clone();
+            let line = recv.span().start().line;
+            let st: Stmt = parse_quote!( let #t = #recv; );
+            self.record("R-unchain", line, &recv, &st);
+            pre.push(st);
+            *slot = parse_quote!( #t );
+        }
+    }
+    /// names the values that are evaluated FIRST in `e` (method receivers, left operands), innermost first,
+    /// so the order of evaluation is unchanged
+    fn unchain(&mut self, e: &mut Expr, pre: &mut Vec<Stmt>) {
+        match e {
+            Expr::MethodCall(mc) => {
+                self.unchain(&mut mc.receiver, pre);
+                self.unchain_hoist(&mut mc.receiver, pre);
+            }
+            Expr::Paren(p) => self.unchain(&mut p.expr, pre),
+            Expr::Binary(b) if !matches!(b.op, BinOp::And(_) | BinOp::Or(_)) => {
+                self.unchain(&mut b.left, pre);
+                self.unchain_hoist(&mut b.left, pre);
+            }
+            _ => {}
+        }
+    }
     fn record<A: ToTokens, B: ToTokens>(&mut self, rule: &str, line: usize, before: &A, after: &B) {
         self.log.push(RewriteLog { rule: rule.to_string(), line, before: txt(before), after: txt(after) });
     }
@@ -967,6 +994,24 @@ impl VisitMut for Rewriter {
                 }
             }
         }
+        // R-unchain: `let x = a.f().g();` -> `let __vx_c1 = a.f(); let x = __vx_c1.g();` (same evaluation order;
+        // gives every intermediate value of a method chain a name that proof anchors can talk about)
+        if self.on("R-unchain") {
+            let mut out = Vec::with_capacity(b.stmts.len());
+            for mut s in b.stmts.drain(..) {
+                let mut pre: Vec<Stmt> = vec![];
+                if let Stmt::Local(l) = &mut s {
+                    if let Some(init) = &mut l.init {
+                        if init.diverge.is_none() {
+                            self.unchain(&mut init.expr, &mut pre);
+                        }
+                    }
+                }
+                out.extend(pre);
+                out.push(s);
+            }
+            b.stmts = out;
+        }
         visit_mut::visit_block_mut(self, b);
     }
 
@@ -1190,6 +1235,7 @@ pub fn selftest() -> i32 {
         ("{ normal.sample_iter(&mut self.rng).zip(current).map(|(x, eps)| x + *eps).collect() }", &["R-samplezip"], "for __vx_k1 in 0 .. current . len () { let x = normal . sample (& mut self . rng) ; let eps = & current [__vx_k1] ; __vx_out1 . push (x + * eps) ; } let _ = normal . sample (& mut self . rng) ; __vx_out1", &["R-samplezip"]),
         ("{ for _ in 0..n { v.push(r.random()); } }", &["R-wild"], "for __vx_i1 in 0 .. n { v . push (r . random ()) ; }", &["R-wild"]),
         ("{ (_, m, _, u) = lf(p); }", &["R-destruct"], "{ let (_ , __vx_t1 , _ , __vx_t2) = lf (p) ; m = __vx_t1 ; u = __vx_t2 ; }", &["R-destruct"]),
+        ("{ let q = (z * d).sum_dim(1).squeeze(1); let m = T::f(a).r([1, 2]).e(n); let k = x.len(); let w = (z.r(2) * d).sum(); }", &["R-unchain"], "let __vx_c1 = (z * d) . sum_dim (1) ; let q = __vx_c1 . squeeze (1) ; let __vx_c2 = T :: f (a) ; let __vx_c3 = __vx_c2 . r ([1 , 2]) ; let m = __vx_c3 . e (n) ; let k = x . len () ; let __vx_c4 = z . r (2) ; let w = (__vx_c4 * d) . sum () ;", &["R-unchain", "R-unchain", "R-unchain", "R-unchain"]),
         ("{ if (now >= last + freq) | (i == total - 1) { f(); } }", &["R-boolor"], "if vx_bor ((now >= last + freq) , (i == total - 1)) { f () ; }", &["R-boolor"]),
         ("{ for w in rho.windows_with_stride(2, 2) { f(w); } }", &["R-windows"], "for __vx_w1 in 0 .. vx_win_count (rho . len () , 2 , 2) { let w = nd_window (& rho , __vx_w1 * 2 , 2) ; f (w) ; }", &["R-windows"]),
         ("{ out.axis_iter_mut(Axis(1)).into_par_iter().enumerate().for_each(|(c, mut oc)| { let d = g(c); oc[3] = d; }); }", &["R-par", "R-axisiter"], "for c in 0 .. out . ncols () { let d = g (c) ; nd_set2 (& mut out , 3 , c , d) ; }", &["R-par", "R-axisiter"]),
